@@ -92,8 +92,12 @@ func (c *syncMap) Write(ctx context.Context, k []byte, v interface{}) error {
 }
 
 // Delete removes values by the key.
+//
+// It fails with ErrNotFound if key does not exist.
 func (c *syncMap) Delete(ctx context.Context, key []byte) error {
-	c.data.Delete(string(key))
+	if _, loaded := c.data.LoadAndDelete(string(key)); !loaded {
+		return ErrNotFound
+	}
 
 	c.t.NotifyDeleted(ctx, key)
 
